@@ -1,5 +1,6 @@
-(* Proofs/SchedWitness.v — concrete schedules: the cold-index race, the concurrent form
-   of the cache-key defect, and thread sets inside the guard of warm_context_safe. *)
+(* Proofs/SchedWitness.v — concrete schedules: the former cold-index race (harmless since
+   the index is published with one store), the concurrent form of the cache-key defect,
+   and thread sets inside the guard of context_safe on cold, warm and stale contexts. *)
 From Coq Require Import String NArith List Bool.
 From XV Require Import Base.Str Base.Eqb Model.Context Model.Sched Proofs.ContextWitness Proofs.SchedSafe.
 Import ListNotations.
@@ -11,58 +12,50 @@ Definition docPA : list pevent :=
    PEnd (q "{urn:a}x") (Some (q "1")); PEnd (q "{urn:a}leaf") None; PEnd (q "{urn:a}PA") None].
 Definition parsePA : script := parse W docPA None.
 
-(* thread 0 passes the currency check and stops before clear(); thread 1 rebuilds the whole
-   index (check, clear, 7 appends, record the module count) and stops before looking the
-   qname up; thread 0 clears; thread 1 looks up *)
-Definition race_sched : list nat := ([0] ++ repeat 1 10 ++ [0; 1; 1])%nat.
+(* The schedule of the former race: thread 0 passes the currency check and stops before
+   publishing; thread 1 rebuilds (check, publish, record the module count) and stops before
+   looking the qname up; thread 0 publishes; thread 1 looks up.  Before /repo ece294b thread
+   0's step was `self.xsi_cache.clear()` and thread 1 got None. *)
+Definition race_sched : list nat := [0; 1; 1; 1; 0; 1; 1]%nat.
 
-Example race_values :
-  conc_run W s0 [ftPA; ftPA] race_sched = [ROk (Node (q "c:2") []); ROk (Node (q "none") [])]
+Example race_sched_harmless :
+  conc_run W s0 [ftPA; ftPA] race_sched = [solo_run W s0 ftPA; solo_run W s0 ftPA]
+  /\ conc_run W s0 [parsePA; parsePA] race_sched = [solo_run W s0 parsePA; solo_run W s0 parsePA]
   /\ solo_run W s0 ftPA = ROk (Node (q "c:2") []).
-Proof. vm_compute. split; reflexivity. Qed.
+Proof. vm_compute. repeat split; reflexivity. Qed.
 
-Lemma cold_index_race :
-  nth_error (conc_run W s0 [ftPA; ftPA] race_sched) 1 <> Some (solo_run W s0 ftPA)
-  /\ conc_guard W [] [ftPA; ftPA] = true /\ warm_b W s0 = false.
-Proof. vm_compute. split; [discriminate|split; reflexivity]. Qed.
-
-(* the same schedule under a parser that has to locate the root class *)
-Example race_parse :
-  conc_run W s0 [parsePA; parsePA] race_sched
-  = [ROk (tree_of_value vPA); RErr e_parser (q "No class found matching root: {urn:a}PA")]
-  /\ solo_run W s0 parsePA = ROk (tree_of_value vPA).
-Proof. vm_compute. split; reflexivity. Qed.
-
-(* a half-built index: thread 1 looks up after thread 0 has re-appended only some classes *)
-Example race_half_built :
-  exists sched, nth_error (conc_run W s0 [ftPA; ftPA] sched) 0 <> Some (solo_run W s0 ftPA).
-Proof.
-  (* 1 builds completely and looks up `has` (true) ; 0 clears and refills nothing yet; 1 fetches the list *)
-  exists ([1] ++ repeat 0 10 ++ [1; 0; 0])%nat. vm_compute. discriminate.
-Qed.
-
-(* ---- warm context ---- *)
-Definition warm1 : sstate := fst (solo W s0 (expand W ftPA)).
-
-Example warm1_is_warm : warm_b W warm1 = true.
-Proof. vm_compute. reflexivity. Qed.
-
+(* ---- inside the guard, on a cold context ---- *)
 Definition fetchPA : script := op_script W (OCall (CFetch 2 None (Some (q "{urn:a}PA")))).
 Definition good_threads : list script :=
   [serialize W vPA; parsePA; ftPA; fetchPA; serialize W vOwn; parse W docOwn None;
    serialize W (V (GObj 14) []); parse W (firstn 3 docPA ++ [PBad]) (Some 2)].
 
-Example conc_guard_nonvacuous : conc_guard W (s_cache warm1) good_threads = true.
+Example conc_guard_cold : conc_guard W s0 good_threads = true.
 Proof. vm_compute. reflexivity. Qed.
 
-(* the theorem applied: any schedule *)
-Example good_threads_safe sched :
-  conc_run W warm1 good_threads sched = map (ideal_run_c W) good_threads.
-Proof. apply warm_context_safe; [exact warm1_is_warm|exact conc_guard_nonvacuous]. Qed.
+Example good_threads_safe_cold sched :
+  conc_run W s0 good_threads sched = map (solo_run W s0) good_threads.
+Proof.
+  destruct (context_safe W s0 good_threads sched conc_guard_cold) as [H1 H2]. congruence.
+Qed.
 
-(* the race schedule on the warm context is harmless *)
-Example race_sched_warm :
-  conc_run W warm1 [ftPA; ftPA] race_sched = [solo_run W warm1 ftPA; solo_run W warm1 ftPA].
+(* ---- on a warm one ---- *)
+Definition warm1 : sstate := fst (solo W s0 (expand W ftPA)).
+
+Example warm1_is_warm : warm_b W warm1 = true.
+Proof. vm_compute. reflexivity. Qed.
+
+Example conc_guard_warm : conc_guard W warm1 good_threads = true.
+Proof. vm_compute. reflexivity. Qed.
+
+(* ---- on a context whose index is stale (C14's defect b): every thread sees the same
+   stale index, and so does the solo run ---- *)
+Definition stale1 : sstate := mkS [] [] (w_modules W).
+
+Example conc_guard_stale : conc_guard W stale1 [ftPA; parsePA; ftPA] = true /\ warm_b W stale1 = false.
+Proof. vm_compute. split; reflexivity. Qed.
+
+Example stale_values : solo_run W stale1 ftPA = ROk (Node (q "none") []).
 Proof. vm_compute. reflexivity. Qed.
 
 (* ---- the cache-key defect, concurrently: both threads miss Leaf, both store, the one
@@ -72,5 +65,5 @@ Definition ns_sched : list nat := [0; 0; 0; 0; 1; 1; 1; 1; 1; 0]%nat.
 
 Lemma ns_race :
   nth_error (conc_run W warm1 ns_threads ns_sched) 1 <> Some (solo_run W warm1 (serialize W vPB))
-  /\ warm_b W warm1 = true /\ conc_guard W (s_cache warm1) ns_threads = false.
-Proof. vm_compute. split; [discriminate|split; reflexivity]. Qed.
+  /\ conc_guard W warm1 ns_threads = false.
+Proof. vm_compute. split; [discriminate|reflexivity]. Qed.
